@@ -317,14 +317,29 @@ def _add_alias_to_scope(name_ir, table, scope, alias, visibility, errors):
 def _resolve_head_of_field_reference(
     field_reference, table, current_scope, visible_scopes, source_file_name, errors
 ):
-    return _resolve_reference(
-        field_reference.path[0],
+    head = field_reference.path[0]
+    _resolve_reference(
+        head,
         table,
         current_scope,
         visible_scopes,
         source_file_name,
         errors,
     )
+    if head.has_field("canonical_name") and not head.canonical_name.object_path:
+        # The only snake_case names that are visible from enclosing scopes are
+        # import aliases, which name a module, not a value.
+        errors.append(
+            [
+                error.error(
+                    source_file_name,
+                    head.source_location,
+                    "'{}' is an imported module, not a field.".format(
+                        head.source_name[0].text
+                    ),
+                )
+            ]
+        )
 
 
 def _resolve_reference(
